@@ -64,6 +64,10 @@ impl Sm9EncKey {
         let c2 = &data[(65 + 32)..];
         let c3 = &data[65..(65 + 32)];
         let c1 = Point::from_bytes(c1_bytes);
+        // B1: C1 must be a point of G1
+        if !c1.is_on_curve() {
+            return Err(Sm9Error::NotOnCurve);
+        }
         let w = sm9_u256_pairing(&self.de, &c1);
         let w_bytes = w.to_bytes_be();
         let mut k_append: Vec<u8> = vec![];
